@@ -22,5 +22,5 @@ CHECK = {
         "sync": ["syncutil/onceconstructor.go"],
         "chan": ["syncutil/onceconstructor.go", "syncutil/sema.go"],
         "gomaxprocs": 1,
-    }],
+    }, {"name": "race", "pkg": "./checks/c17/race", "race": True}],
 }
